@@ -57,11 +57,13 @@ impl<T> ValuesMatrix<T> {
         self.values.iter().flat_map(|generation| generation.iter())
     }
 
+    /// Non-empty generations starting from the `skip`-th one; `skip` counts all generations,
+    /// as generations_count does: an earlier fold over the same stream leaves an empty one.
     pub fn slice_iter(&self, skip: GenerationIdx) -> impl Iterator<Item = &[T]> {
         self.values
             .iter()
-            .filter(|generation| !generation.is_empty())
             .skip(skip.into())
+            .filter(|generation| !generation.is_empty())
             .map(|generation| generation.as_ref())
     }
 
